@@ -597,7 +597,8 @@ func goBodiesOf(fn *ssa.Function) []*subFunc {
 				continue
 			}
 			if mk, ok := g.Call.Value.(*ssa.MakeClosure); ok {
-				out = append(out, &subFunc{Fn: mk.Fn.(*ssa.Function), Go: g, Mk: mk})
+				// `go func(x T) {…}(v)`: captured variables and explicit parameters both bind to the spawner's values
+				out = append(out, &subFunc{Fn: mk.Fn.(*ssa.Function), Go: g, Mk: mk, Args: g.Call.Args})
 				continue
 			}
 			if callee := g.Call.StaticCallee(); callee != nil && callee.Blocks != nil {
@@ -618,6 +619,7 @@ func closuresOf(fn *ssa.Function) []*subFunc {
 				for _, r := range *mk.Referrers() {
 					if g, ok := r.(*ssa.Go); ok {
 						sf.Go = g
+						sf.Args = g.Call.Args
 					}
 				}
 				out = append(out, sf)
